@@ -38,8 +38,8 @@ def expand(macro, t, k, rng):
     """A macro-op of thread t (its k-th) as concrete op text(s)."""
     m = t * 30 + k + 1            # message tag (< 256: the 1-byte payload class carries it in a u8)
     f = t * 10 + k                # future id
-    w = rng.choice([0, 1, 2])
-    w2 = rng.choice([0, 1, 2])
+    w = f * 4 + rng.choice([0, 1, 2])     # waker ids are unique per future (f = w // 4): wake-ups can be attributed
+    w2 = f * 4 + rng.choice([0, 1, 2])
     dur = rng.choice([0, 50, 300, 2000, 100000])
     table = {
         "send": [f"send {m}"], "sendt": [f"sendt {m} {dur}"], "sendot": [f"sendot {m} {dur}"],
@@ -340,41 +340,29 @@ def mon_capacity(run, cap):
 
 def mon_wake(run):
     """C06/C16: when a peer completes a pending future it wakes the waker supplied by the last poll that
-    returned Pending; and no poll returns Pending with a different waker after that completion."""
+    returned Pending (or by a poll still in flight), and no poll returns Pending with a different waker
+    after that wake-up.  Generated programs use waker ids unique per future (future = id // 4)."""
     bad = []
-    ops = run.ops()
-    # signal address of each future = the address its owner's polls load; take from `st`/`wwake` adjacency instead:
-    # a peer's completion shows as `wclone w i` ... `st a rel v` ... `wwake i w` by the same thread.
-    polls = {}   # fut -> list of (call, ret, waker, result)
-    for o in ops:
+    polls = {}   # future -> list of (call, ret, waker, result, owner)
+    for o in run.ops():
         t = o["op"].split(" ")
         if t[0] in ("polls", "pollr") and o["ret"] is not None:
-            polls.setdefault((o["tid"], t[1]), []).append((o["call"], o["ret"], int(t[2]), o["res"]))
+            polls.setdefault(int(t[1]), []).append((o["call"], o["ret"], int(t[2]), o["res"], o["tid"]))
     wakes = [(i, tid, int(args[1])) for i, (tid, kind, args) in enumerate(run.events) if kind == "wwake"]
-    for (owner, f), ps in polls.items():
-        pend = [p for p in ps if p[3].startswith("pending")]
-        if not pend:
+    for (wi, wt, w) in wakes:
+        f = w // 4
+        ps = polls.get(f)
+        if not ps:
             continue
-        # wake events by other threads after the first pending poll began
-        later_ready = [p for p in ps if not p[3].startswith("pending")]
-        for (wi, wt, w) in wakes:
-            if wt == owner:
-                continue
-            # which future does this wake belong to?  only attribute when the owner has a single pending future at that time
-            owner_pending = [(ff, pp) for (oo, ff), pp in polls.items() if oo == owner and
-                             any(x[3].startswith("pending") and x[0] < wi for x in pp) and
-                             not any((not x[3].startswith("pending")) and x[1] < wi for x in pp)]
-            if len(owner_pending) != 1 or owner_pending[0][0] != f:
-                continue
-            before = [p for p in pend if p[1] < wi]
-            if before and before[-1][2] != w:
-                # the last *returned* pending poll had another waker; allowed only if a poll with waker w is still in flight
-                inflight = [p for p in ps if p[0] < wi < p[1]]
-                if not inflight:
-                    bad.append(f"future {f} of {owner}: woken through waker {w} but the last Pending poll supplied waker {before[-1][2]}")
-            after = [p for p in pend if p[0] < wi < p[1] and p[2] != w]
-            for p in after:
-                bad.append(f"future {f} of {owner}: poll with waker {p[2]} returned Pending (event {p[1]}) after the peer woke waker {w} (event {wi}): lost wake-up")
+        if ps[0][4] == wt:
+            continue    # (never happens: an owner does not wake itself)
+        pend_before = [p for p in ps if p[3].startswith("pending") and p[1] < wi]
+        inflight = [p for p in ps if p[0] < wi < p[1]]
+        if pend_before and pend_before[-1][2] != w and not any(p[2] == w for p in inflight):
+            bad.append(f"future {f}: woken through waker {w} (event {wi}) but the last Pending poll supplied waker {pend_before[-1][2]}")
+        for p in inflight:
+            if p[3].startswith("pending") and p[2] != w:
+                bad.append(f"future {f}: poll with waker {p[2]} returned Pending (event {p[1]}) after the peer woke waker {w} (event {wi}): lost wake-up")
     return bad
 
 
